@@ -19,7 +19,7 @@ pres = [r for r in muts if not r["caught_by"] and r["note"]]
 text = []
 text.append("Merged result of all runs (`selftest/run*_results.json`, merged by `selftest/matrix.py`; the full table with one row per change is "
             "`selftest/matrix.md`, and every `seeded/<id>/meta.json` lists the checks that were run against it under `checks_run`): "
-            "%d seeded changes are stored, %d of them have a recorded run of the quick tier as it stands now; %d of those are caught "
+            "%d seeded changes are stored, %d of them have a recorded run of the quick tier (as it stood at the time of the run named in `checks_run`); %d of those are caught "
             "(%d by the check that owns the property, %d by a neighbouring check: %s)." % (
                 len(stored), len(seeds), len(caught), len(by_owner), len(by_neighbour),
                 ", ".join("%s by %s" % (r["id"], "/".join(r["caught_by"])) for r in by_neighbour) or "none"))
